@@ -318,3 +318,23 @@ def replay_wiring(inp):
         rfc6979.generate_k = old
     return got.get("sign") != got.get("verify"), "%s: signer integer %r, verifier integer %r" % (
         pair, got.get("sign"), got.get("verify"))
+
+
+def replay_algebra(inp):
+    from ecdsa import keys, ecdsa as ecd
+    from harness.egcommon import native_curve
+    tc = inp["curve"]
+    if "d" not in inp:
+        return False, "entropy job has no concrete replay input"
+    cv = native_curve(tc)
+    d, k, e = inp["d"], inp["k"], inp["e"]
+    sk = keys.SigningKey.from_secret_exponent(d, cv)
+    try:
+        r, s = sk.sign_number(e, k=k)
+    except ecd.RSZeroError:
+        return False, "RSZeroError"
+    pk = sk.verifying_key.pubkey
+    a = pk.verifies(e, ecd.Signature(r, s))
+    b = pk.verifies(e, ecd.Signature(r, tc["n"] - s))
+    return not (a is True and b is True), "d=%d k=%d e=%d on %r: (r,s)=(%d,%d) verifies=%r, reflected=%r" % (
+        d, k, e, tc, r, s, a, b)
